@@ -163,7 +163,12 @@ fn en_acc(v: u32, hi: u32, acc: impl FnOnce() -> u32) -> String {
     }
 }
 
-fn get_line<T: ?Sized>(ctx: &mut Ctx, g: &Guarded, name: &str, r: Result<Option<&T>, ()>) -> Option<*const u8> {
+fn get_line<T: multiboot2_common::MaybeDynSized + ?Sized>(
+    ctx: &mut Ctx,
+    g: &Guarded,
+    name: &str,
+    r: Result<Option<&T>, ()>,
+) -> Option<*const u8> {
     match r {
         Err(()) => {
             ctx.ln("get", format!("{} PANIC", name));
@@ -174,7 +179,7 @@ fn get_line<T: ?Sized>(ctx: &mut Ctx, g: &Guarded, name: &str, r: Result<Option<
             None
         }
         Ok(Some(t)) => {
-            ctx.ln("get", format!("{} some {}", name, view(g, t)));
+            ctx.ln("get", format!("{} some {} {}", name, view(g, t), crate::dom_mbi::dyn_views(g, t)));
             Some(t as *const T as *const u8)
         }
     }
